@@ -1,8 +1,9 @@
 (* C11 — Snapshots and compaction never lose history (compaction arithmetic).
    Statements only; proofs in Proofs/CompactionProofs.v. *)
 From Coq Require Import List NArith.
-From RaftModel Require Import Base Compaction.
-From RaftProofs Require Import CompactionProofs.
+From stdpp Require Import gmap.
+From RaftModel Require Import Base Compaction Node.
+From RaftProofs Require Import CompactionProofs SnapshotProofs.
 Open Scope N_scope.
 
 (* whatever first/snapshot/last/TrailingLogs: the range deleted starts at the first index, ends at
@@ -26,6 +27,29 @@ Print Assumptions C11_compaction_max.
 Theorem C11_reset_removes_all : forall f l, 0 < f -> f <= l -> remove_old f l = Some (f, l).
 Proof. exact remove_old_all. Qed.
 Print Assumptions C11_reset_removes_all.
+
+
+(* ---- takeSnapshot (Model/Node.v take_snapshot, tied to the real takeSnapshot in node sequences):
+   a snapshot that was taken records exactly the FSM goroutine's last index and term, the
+   COMMITTED configuration with its index, and the FSM content; its index is at or above the
+   committed configuration's index; afterwards the log has lost at most one range, entirely at or
+   below the snapshot index and leaving TrailingLogs entries. *)
+Theorem C11_snapshot_records_committed_state : forall P s fs s' code tr fs',
+  take_snapshot P s fs = Done s' code tr fs' -> code = 0 \/ code = 5 ->
+  exists sn, d_snaps s' = d_snaps s ++ [sn] /\
+    (sn_idx sn, sn_term sn) = v_fsmLast s /\ sn_cfg sn = v_committed s /\ sn_cfgidx sn = v_committedIdx s /\
+    sn_data sn = v_fsm s /\ v_committedIdx s <= sn_idx sn /\ 0 < sn_idx sn /\
+    v_lastSnapIdx s' = sn_idx sn /\ v_lastSnapTerm s' = sn_term sn /\
+    (d_log s' = d_log s \/
+     exists lo hi, d_log s' = log_delete (d_log s) lo hi /\ hi <= sn_idx sn /\
+                   (p_trailing P < v_lastLogIdx s -> hi <= v_lastLogIdx s - p_trailing P)).
+Proof. exact take_snapshot_records. Qed.
+Print Assumptions C11_snapshot_records_committed_state.
+
+Theorem C11_snapshot_refused_or_nothing_new : forall P s fs,
+  (fst (v_fsmLast s) = 0 -> take_snapshot P s fs = Done s 2 [] fs) /\
+  (fst (v_fsmLast s) <> 0 -> fst (v_fsmLast s) < v_committedIdx s -> take_snapshot P s fs = Done s 3 [] fs).
+Proof. exact take_snapshot_refusals. Qed.
 
 Example C11_nontrivial :
   compact 3 10 20 5 = Some (3, 10) /\ compact 3 18 20 5 = Some (3, 15) /\
